@@ -214,6 +214,15 @@ def run_shard(args):
                 )
             except _Fail:
                 pass
+            except BaseException as e:  # noqa: BLE001
+                # the recorded violation stands when Hypothesis' own re-run of the failing history behaves differently (results that
+                # depend on what the process did before are exactly what this machine looks for)
+                from hypothesis.errors import Flaky
+
+                if isinstance(e, Flaky) and res["failures"]:
+                    res["classes"]["result-depends-on-call-history"] += 1
+                else:
+                    raise
         elif sub.strategy is not None:
             from hypothesis import HealthCheck, Phase, given, seed as hseed, settings
 
